@@ -293,7 +293,10 @@ def parent(pid, tier, seed, only_unit=None, replay=None):
         "wall_s": round(wall, 2),
         "violations": len(new_viol),
     }
-    if not only_unit and not replay:
+    foreign_tree = os.path.realpath(os.environ.get("VERIF_REPO", "/repo")) != "/repo"
+    if foreign_tree:
+        print(f"[{pid}] note: run against {os.environ.get('VERIF_REPO')} (not /repo): evidence file left untouched")
+    if not only_unit and not replay and not foreign_tree:
         (ROOT / "evidence").mkdir(exist_ok=True)
         (ROOT / "evidence" / f"{pid}.json").write_text(json.dumps(ev, indent=1))
         try:
